@@ -5,7 +5,6 @@ import (
 	"math/rand/v2"
 	"runtime"
 	"testing"
-	"testing/synctest"
 )
 
 // Free mode (data-race clause only): no cooperative scheduler, real sync, real
@@ -33,19 +32,19 @@ func (s *Sim) freePermute(n int, site string, swap func(i, j int)) {
 	applyPerm(n, r.Intn(1+n+12), swap)
 }
 
-// RunFree runs host in a bubble without the cooperative scheduler.
+// RunFree runs host without the cooperative scheduler and without a synctest bubble: real goroutines,
+// real locks, real time. (A bubble's fake clock only advances when every goroutine is durably blocked,
+// so a core that spins would starve every sleeper, including the product's polling wait.)
 func RunFree(t *testing.T, seed uint64, host func()) (panicMsg string) {
 	s := &Sim{free: true, freeSeed: seed, mapSitesHit: map[string]int{}}
 	defer func() {
 		active.Store(nil)
 		if r := recover(); r != nil {
-			panicMsg = "bubble: " + toString(r)
+			panicMsg = "host: " + toString(r)
 		}
 	}()
-	synctest.Test(t, func(t *testing.T) {
-		active.Store(s)
-		host()
-	})
+	active.Store(s)
+	host()
 	return ""
 }
 
